@@ -1378,7 +1378,8 @@ impl ErasedNode for Node {
         if !was_necessary {
             self.became_necessary(state);
         }
-        if let Some(Kind::Expert(expert)) = self.kind() {
+        // it is the parent's edge callback that has to hear about the new child
+        if let Some(Kind::Expert(expert)) = p.kind() {
             expert.run_edge_callback(child_index)
         }
     }
